@@ -43,6 +43,30 @@ CLAIMED = {
         ref="DESIGN.md section 4 C12",
         note="Route normalisation code (add_transition, add_event, add_birth_death, Event/Transition constructors, declaration "
              "splitting) is tied by correspondence, not translated. Theorems closed under the global context."),
+    "C04": dict(
+        technique="Coq proof by induction over an arbitrary oracle schedule of the jump-loop model (firstReaction, tauLeap with "
+                  "first-reaction fallback, _checkJump, _updateStateWithJump, _newJumpTimes) instantiated with kernel "
+                  "functions/facts regenerated from the source + exact step-by-step replay of recorded pygom paths in Qc",
+        text="C04_walk: for every configuration (any V, limits), horizon, start and every schedule with positive clocks/tau "
+             "and non-negative counts (= all seeds and rate functions) each consecutive pair of recorded rows has t<T, "
+             "strictly increasing time, non-negative counts, x' = x + V n' and x' within limits; Horizon stop implies last "
+             "t >= T; C04_exact_one_event: unit count vectors in exact mode; C04_start. Per run: _checkJump's per-state test "
+             "is translated to Gallina and proved to imply the declared range; recorded paths (clock values, Poisson counts, "
+             "tau, rates logged by wrapping module globals) are replayed through the model and must reproduce states and "
+             "counts exactly, times at 1e-9; the property is also judged directly on every path incl. 1-event/1-state shapes.",
+        ref="DESIGN.md section 4 C04",
+        note="Oracle: rate evaluation, numpy samplers (clocks positive, counts >= 0 are hypotheses). Not modelled: float rounding "
+             "of t+dt; the adaptive tau formula (tau is logged); the inert Cython safety kernel. Theorems closed under the "
+             "global context."),
+    "C11": dict(
+        technique="Coq proof (limit test translated from _checkJump implies the declared range; induction over all schedules: "
+                  "every recorded state within limits; rejected step leaves state and time unchanged) + replay correspondence",
+        text="C11_limit_test, C11_reject, C11_accept, C11_path hold for all limits (lower/upper/two-sided/absent), all "
+             "schedules, both algorithms incl. the tau->first-reaction fallback, any magnitudes. Per run: translator + "
+             "replay of boundary-hitting recorded paths (non-trivial = a rejected step occurred) + direct check of every row.",
+        ref="DESIGN.md section 4 C11",
+        note="Same trusted base as C04. The initial state is assumed inside the limits (the code never checks it). Theorems closed "
+             "under the global context."),
     "C09": dict(
         technique="Coq refinement proof (ordered-dict model of the parameters setter -> name->value map, induction over "
                   "all assignment histories) + source fact translator + vm_compute correspondence on random histories",
